@@ -4,6 +4,7 @@ import NrDaemon.Props.Tied
 import NrDaemon.Model.Regex
 import NrDaemon.Lemmas.Regex
 import NrDaemon.Model.Proc
+import NrDaemon.Gen.Rules
 /-!
   C07 — metric aggregation is order-independent and rename rules are applied faithfully.
 
@@ -418,3 +419,16 @@ theorem C07_scoped_also_unscoped (txnName : String) (ms : List TxnMetric) (t : M
       simp only [hs', Bool.false_eq_true, if_false]
       rw [h1, ih _ (by omega)]
       simp [applyAll]
+
+/-- **C07 (tie: the shape of metric_rules.go).**  `MetricRule.Apply` tests ignore, then replace_all, then each_segment
+(else plain replace-first) — the order of `applyRule` / `applyRuleX`; `MetricRules.Apply` returns on ignore, remembers a
+match and breaks on terminate_chain; rules are sorted by `eval_order`, compiled as `(?i)` + expression, and back-references
+are transformed with the two expressions the model transcribes (`\\\\N` ambiguous, `\\N` → `${N}`). -/
+theorem C07_rules_source_tied :
+    Gen.Rules.flagOrder = ["r.Ignore", "r.ReplaceAll", "r.EachSegment"] ∧
+    Gen.Rules.chain = ["RuleResultIgnore==res=>return", "RuleResultMatched==res=>break", "rule.Terminate=>break", "matched=>return"] ∧
+    Gen.Rules.compileArg = "\"(?i)\"+r.RawExpr" ∧
+    Gen.Rules.less = "rules[i].Order<rules[j].Order" ∧
+    Gen.Rules.ambiguous = "regexp.MustCompile(`\\\\\\\\([0-9]+)`)" ∧
+    Gen.Rules.backref = "regexp.MustCompile(`\\\\([0-9]+)`)" ∧
+    Gen.Rules.backrefReplacement = "\"$${${1}}\"" := by decide
